@@ -201,6 +201,68 @@ def madgwick(chk, prog):
                construct="gradient step", **kw)
 
 
+def madgwick_guard(chk, prog):
+    """FEEDBACK.guard (must-facts): the normalised gradient J^T f / |J^T f| is 0/0 exactly where the objective f vanishes (the estimate already matches the
+    sample).  At the point where J^T f is formed -- in the method, in a private method, or in a helper it is handed to -- the fact `norm(f) != 0` must hold
+    (an enclosing `if norm(f) > 0`, an early `if not norm(f) > 0: return` ...).  A test on another vector, or none, lets a resting, aligned sensor produce NaN."""
+    from sa.facts import norm_of
+    for meth in ("updateIMU", "updateMARG"):
+        f = prog.func(F + "madgwick.py::Madgwick." + meth)
+        cases = []          # (function to analyse, node at which the fact must hold, expression of the objective there)
+        jt = _jtf(f.node)
+        if jt:
+            cases.append((f, None, jt[1]))
+        else:
+            for c in ast.walk(f.node):
+                if not isinstance(c, ast.Call):
+                    continue
+                g = None
+                if isinstance(c.func, ast.Name):
+                    r = f.module.resolve_name(c.func.id)
+                    g = r if r is not None and hasattr(r, "node") and isinstance(r.node, ast.FunctionDef) else None
+                    params = [a_.arg for a_ in g.node.args.args] if g else []
+                elif isinstance(c.func, ast.Attribute) and isinstance(c.func.value, ast.Name) and c.func.value.id == "self" and f.cls is not None:
+                    g = f.cls.methods.get(c.func.attr)
+                    params = [a_.arg for a_ in g.node.args.args][1:] if g else []
+                if g is None or not _jtf(g.node):
+                    continue
+                inner = _jtf(g.node)
+                if inner[1] in params:          # the objective is an argument: the guard may be at the call site ...
+                    bound = dict(zip(params, c.args))
+                    bound.update({k.arg: k.value for k in c.keywords})
+                    if inner[1] in bound:
+                        cases.append((f, c, bound[inner[1]]))
+                cases.append((g, None, inner[1]))      # ... or inside the helper
+        if not cases:
+            chk.error("FEEDBACK.guard: %s: the statement forming J^T f was not located" % f.ref)
+            continue
+        verdicts = []
+        for fn, at_node, fexpr in cases:
+            hits = []
+
+            class G(Facts):
+                def expr(self2, node, st):
+                    for x in ast.walk(node):
+                        is_t = (at_node is not None and x is at_node) or (at_node is None and isinstance(x, ast.BinOp) and isinstance(x.op, ast.MatMult)
+                                                                         and isinstance(x.left, ast.Attribute) and x.left.attr == "T" and ast.unparse(x.right) == fexpr)
+                        if is_t:
+                            fe = fexpr if isinstance(fexpr, ast.AST) else ast.parse(fexpr, mode="eval").body
+                            hits.append(self2.has(st, "NZ", norm_of(self2.vn(fe, st))))
+                    return super().expr(node, st)
+            G(fn, prog).analyse()
+            if hits:
+                verdicts.append(all(hits))
+        site = "%s::norm(objective) guard" % f.ref
+        if verdicts and any(verdicts):
+            chk.record("FEEDBACK.guard", site, "J^T f is formed only where the objective is known non-zero")
+        elif not verdicts:
+            chk.error("FEEDBACK.guard: %s: the statement forming J^T f was not reached by the analysis" % f.ref)
+        else:
+            why = "J^T f is formed (and then normalised) at a point where `norm(f) != 0` is not established: where the objective vanishes the step is 0/0 = NaN"
+            chk.record("FEEDBACK.guard", site, "gradient normalised only where the objective is non-zero", verdict="VIOLATION", detail=why)
+            chk.finding("FEEDBACK.guard", f.module.rel, f.qname, "guard of the gradient normalisation", why, line=f.node.lineno)
+
+
 def mahony(chk, prog):
     """all Mahony clauses are read off observable effects (returned quaternion, carried bias), not off local names"""
     from sa.lib import normalized
@@ -596,6 +658,7 @@ def run(chk, prog, tier):
     oleq(chk, prog)
     chk.require_count("EQUILIBRIUM", 8)
     chk.require_count("FEEDBACK.jacobian", 3)
+    madgwick_guard(chk, prog)
     aqua_equilibrium(chk, prog)
     aqua_short_arc(chk, prog)
     aqua_gain_input(chk, prog)
